@@ -117,6 +117,23 @@ def xa_entries(rng, path, kvs):
     return [path, [[k, hv, rng.choice(["hex", "hex", "HEX", "b64", "text", "text"])] for k, hv in kvs]]
 
 
+def xa_for_fs(rng, fs, pr=0.3):
+    """--xattr-file entries for a real tree: the attributes of a multiply-linked inode are listed under every one of its
+    names (as `getfattr --dump` does)"""
+    out = []
+    for x in fs:
+        if x["t"] == "link" or not x["p"] or rng.random() >= pr:
+            continue
+        names = [x["p"]] + [l["p"] for l in fs if l["t"] == "link" and l["to"] == x["p"]]
+        if not all(xattr_path_ok(n) for n in names):
+            continue
+        kvs = rnd_xattrs(rng)
+        ent = xa_entries(rng, x["p"], kvs)
+        for n in names:
+            out.append([n, ent[1]])
+    return out
+
+
 def xattr_path_ok(path):
     """paths that can be written after `# file: ` (one line, surrounding blanks are not part of it)"""
     return path == path.strip(" \t\r\n\v\f") and "\n" not in path and "\r" not in path and path != ""
